@@ -44,13 +44,15 @@ def _base(name):
         from props import C03
         V, F = C03._torus_blocks()
         return trimesh.Trimesh(np.array(V, dtype=float), np.array(F), process=False)
+    if name == "annulus":
+        return trimesh.creation.annulus(0.5, 1.0, 1.0, sections=12)
     if name == "two":
         return trimesh.util.concatenate([trimesh.creation.box(),
                                          trimesh.creation.icosphere(subdivisions=0).apply_translation([3, .25, .5])])
     raise KeyError(name)
 
 
-BASES = ["box", "slab", "ico", "torus", "two"]
+BASES = ["box", "slab", "ico", "torus", "two", "annulus"]
 
 
 def mesh(name):
@@ -154,6 +156,15 @@ def cases(ctx):
                 q = list(base)
                 q[ax] = _r(q[ax] + s * ext[ax])
                 pts.append(q)
+            # points from which the library's own first test direction grazes an edge or passes through a vertex
+            # (the query point itself stays far from the surface): edge / vertex point minus a multiple of it
+            d0 = np.array([0.4395064455, 0.617598629942, 0.652231566745])
+            E = m.edges_unique
+            for _ in range(rng.randint(8, 14)):
+                a, b = m.vertices[E[rng.randrange(len(E))]]
+                q = a + rng.choice([0.0, 0.5, rng.random()]) * (b - a)
+                t = rng.choice([-1, 1]) * rng.uniform(0.03, 0.6) * float(np.linalg.norm(ext))
+                pts.append([float(x) for x in (q - t * d0)])
             yield {"kind": "contains", "mesh": name, "engine": eng, "points": pts,
                    "dirs": [[0.31, 0.52, 0.79], [-0.62, 0.27, 0.73]]}
         else:
